@@ -46,13 +46,56 @@ class _EmptyIsFalsy(recorders.StreamRecorder):
         return len(self.live)
 
 
+class _EqualSink(recorders.StreamRecorder):
+    """Sinks with value equality (two per-worker collectors configured alike compare equal): still two targets."""
+    def __eq__(self, other):
+        return isinstance(other, _EqualSink)
+
+    def __ne__(self, other):
+        return not self.__eq__(other)
+
+    __hash__ = None
+
+
+class SinkBroke(Exception):
+    pass
+
+
+class _RaisingSink(recorders.StreamRecorder):
+    """A sink that records the call and then fails on its n-th one (a collector whose disk is full)."""
+    def __init__(self, log, name, nth):
+        super().__init__(log, name)
+        self.nth, self.calls = nth, 0
+
+    def _count(self):
+        self.calls += 1
+        if self.calls == self.nth:
+            raise SinkBroke("%s fails on call %d" % (self.name, self.nth))
+
+    def startTestRun(self):
+        super().startTestRun()
+        self._count()
+
+    def stopTestRun(self):
+        super().stopTestRun()
+        self._count()
+
+    def status(self, *a, **kw):
+        super().status(*a, **kw)
+        self._count()
+
+
 def build(node, leaves, path, log):
     """Instantiate a tree; leaves[] gets (kind, path-of-transfers, object)."""
     import testtools
     kind = node[0]
     if kind == "sink":
         # ("empty": a collecting sink that, like a list, is falsy while it has collected nothing)
-        cls = _EmptyIsFalsy if len(node) > 1 and node[1] == "empty" else recorders.StreamRecorder
+        if len(node) > 2 and node[1] == "raise_on":
+            s = _RaisingSink(log, "L%d" % len(leaves), node[2])
+            leaves.append(("sink", list(path), s))
+            return s
+        cls = {"empty": _EmptyIsFalsy, "eq": _EqualSink}.get(node[1] if len(node) > 1 else None, recorders.StreamRecorder)
         s = cls(log, "L%d" % len(leaves))
         leaves.append(("sink", list(path), s))
         return s
@@ -178,6 +221,9 @@ def x_tree(ctx, case):
                 name = d.pop("event", None) if isinstance(d, dict) else None
                 ctx.check(fresh and name is not None, "queue.each-event-a-fresh-complete-dict",
                           lambda: {"leaf": i, "dequeued": repr(d), "fresh object": fresh, **detail()})
+                if case.get("reuse_set") and name == "status" and d.get("test_tags") is not None:
+                    # (the caller refills its one set for the next event: what the consumer saw is what it holds NOW)
+                    d["test_tags"] = frozenset(d["test_tags"])
                 drained[i].append((name, d))
 
     def in_listed_order(mark, what):
@@ -187,23 +233,43 @@ def x_tree(ctx, case):
         ctx.check(turns == sorted(turns), "fanout.targets-in-listed-order",
                   lambda: {"call": what, "sinks reached, in order": turns, **detail()})
 
+    working = set()       # (reuse_set: the one set object the caller fills afresh for every event)
+
+    def reached(call):
+        """Leaves the call gets to: all of them - or, when a sink fails on it, those up to and including that one
+        (the error leaves through every decorator above it: the call was not completed, nobody is told anything else)."""
+        try:
+            call()
+            broke = None
+        except SinkBroke as e:
+            broke = e
+        if broke is None:
+            return range(len(leaves))
+        culprit = [i for i, (kind, path, obj) in enumerate(leaves)
+                   if isinstance(obj, _RaisingSink) and obj.calls == obj.nth and obj.name in str(broke)]
+        return range(culprit[0] + 1)
+
     for op in history:
         drain()
         mark = len(log.events)
         if op == "start":
-            root.startTestRun()
+            got_to = reached(root.startTestRun)
             in_listed_order(mark, "startTestRun")
             for i, (kind, path, obj) in enumerate(leaves):
-                if kind != "failfast":
+                if kind != "failfast" and i in got_to:
                     expected[i].append(("startTestRun", None))
         elif op == "stop":
-            root.stopTestRun()
+            got_to = reached(root.stopTestRun)
             in_listed_order(mark, "stopTestRun")
             for i, (kind, path, obj) in enumerate(leaves):
-                if kind != "failfast":
+                if kind != "failfast" and i in got_to:
                     expected[i].append(("stopTestRun", None))
         else:
             kw = mk_kwargs(op)
+            if case.get("reuse_set") and isinstance(kw.get("test_tags"), set):
+                working.clear()
+                working.update(kw["test_tags"])
+                kw["test_tags"] = working
             n_status += 1
             caller_tags = kw.get("test_tags")
             snap_tags = None if caller_tags is None else frozenset(caller_tags)
@@ -211,15 +277,16 @@ def x_tree(ctx, case):
             snap_kw = {k: v for k, v in kw.items() if k != "test_tags"}
             before = datetime.datetime.now(UTC)
             npos = op.get("npos", 0) if positional_ok else 0
+            got_to = range(len(leaves))
             try:
                 if npos:
                     f0 = full(kw)
                     f0["test_tags"] = kw.get("test_tags")
                     order = recorders.STREAM_FIELDS
                     args = [f0[k] for k in order[:npos]]
-                    root.status(*args, **{k: v for k, v in kw.items() if k not in order[:npos]})
+                    got_to = reached(lambda: root.status(*args, **{k: v for k, v in kw.items() if k not in order[:npos]}))
                 else:
-                    root.status(**kw)
+                    got_to = reached(lambda: root.status(**kw))
                 refused = None
             except Exception as e:  # noqa
                 refused = e
@@ -235,7 +302,8 @@ def x_tree(ctx, case):
                       lambda: {"event": op, "tags before": snap_tags, "tags after": caller_tags, **detail()})
             f = full(kw)
             for i, (kind, path, obj) in enumerate(leaves):
-                expected[i].append(("status", apply_path(path, f), len(windows) - 1))
+                if i in got_to:
+                    expected[i].append(("status", apply_path(path, f), len(windows) - 1))
 
     def compare(i, got, what):
         want = expected[i]
@@ -276,7 +344,8 @@ def x_tree(ctx, case):
                 else:
                     got.append((e.name, None))
             compare(i, got, "sink")
-            ctx.check(not obj.aliasing_problems(), "sink.no-late-mutation-of-received-objects",
+            # (with reuse_set the caller itself changes the set it handed in: pass-through paths hand it on as it is)
+            ctx.check(case.get("reuse_set") or not obj.aliasing_problems(), "sink.no-late-mutation-of-received-objects",
                       lambda: {"leaf": i, "problems": obj.aliasing_problems(), **detail()})
         elif kind == "queue":
             s, q = obj
@@ -358,7 +427,8 @@ STD_HISTORY = [
 def random_tree(rng, depth):
     if depth == 0 or rng.random() < 0.25:
         return list(rng.choice(LEAVES + [["sink"], ["sink"], ["sink", "empty"], ["queue", rng.choice(["0", "1", "0/2", "h%3A80", "100%", "{0}"])],
-                                         ["queue", "7", "dotted"]]))
+                                         ["queue", "7", "dotted"], ["sink", "eq"], ["sink", "eq"],
+                                         ["sink", "raise_on", rng.randint(1, 6)]]))
     r = rng.random()
     kids = lambda: [random_tree(rng, depth - 1) for _ in range(rng.randint(1, 3))]  # noqa: E731
     if r < 0.35:
@@ -427,4 +497,7 @@ def run(ctx):
             else:
                 hist.append(random_event(rng))
         hist.append("stop")
-        ctx.execute("tree", {"tree": t, "history": hist})
+        case = {"tree": t, "history": hist}
+        if rng.random() < 0.15:
+            case["reuse_set"] = True       # the caller fills ONE set object afresh for every event it sends
+        ctx.execute("tree", case)
